@@ -52,7 +52,7 @@ def fresh_reference(case, st):
     bcfg = {"kind": case["basis"], "n_basis_modes": st["b_user"]}
     model = SSPOR(basis=impl.make_basis(bcfg), optimizer=impl.make_optimizer(case["opt"]), n_sensors=st["ns_user"])
     model.n_basis_modes = st["k_s"]
-    impl.quiet(model.fit, np.array(case["datasets"][st["data"]]), seed=st["seed"], quiet=True)
+    impl.quiet(model.fit, np.array(case["datasets"][st["data"]]), seed=st["seed"], quiet=True, **M.fit_kws(case))
     return model
 
 
@@ -328,6 +328,29 @@ def run(chk):
             except Exception as e:
                 chk.count("reconfigure-scenario-rejected:" + type(e).__name__)
                 continue
+        if it % 3 == 0:
+            # a third history: the basis is reconfigured (another random_state) and the model refitted on data of the same shape
+            try:
+                from pysensors.basis import RandomProjection as _RP
+                how = int(rng.integers(0, 2))
+                mdl3 = SSPOR(basis=_RP(n_basis_modes=k, random_state=3), n_sensors=ns)
+                impl.quiet(mdl3.fit, X1, quiet=True, seed=7)
+                observe2(mdl3, P)
+                if how == 0:
+                    mdl3.basis.set_params(random_state=11)
+                else:
+                    mdl3.basis.random_state = 11
+                impl.quiet(mdl3.fit, X2, quiet=True, seed=7)
+                got3 = observe2(mdl3, P)
+                fresh3 = SSPOR(basis=_RP(n_basis_modes=k, random_state=11), n_sensors=ns)
+                impl.quiet(fresh3.fit, X2, quiet=True, seed=7)
+                exp3 = observe2(fresh3, P)
+                chk.count("scenario:basis reconfigured (random_state)")
+                if not same_obs(got3, exp3) or not np.allclose(np.array(mdl3.basis_matrix_), np.array(fresh3.basis_matrix_), rtol=1e-12, atol=1e-12):
+                    chk.violation("impl", "refit-differs-from-fresh", "RandomProjection basis given another random_state, model refitted: basis matrix / selection / "
+                                  "predictions differ from a fresh model with the final random_state", {**case, "scenario": "fit; basis.random_state = 11; fit"})
+            except Exception as e:
+                chk.count("rp-scenario-rejected:" + type(e).__name__)
         chk.case(case)
         chk.count("scenario:" + case["scenario"].split(":")[0].split(";")[0])
         if not same_obs(got, exp):
